@@ -431,6 +431,36 @@ def index_call(lines, key):
     return hits[0] if hits else None
 
 
+def hostile_sibling_case(i):
+    """an expired Event e and a YOUNG Event whose name is e + '$' + 8..9 more bytes: its records sort between the versions of
+    e. The expiry batch of e must take only e's own versions - the young sibling stays whole and readable."""
+    e = EVENT_KEYS[i % len(EVENT_KEYS)]
+    h = e + b"$" + [b"zzzzzzzzz", b"aaaaaaaa", b"%%%%%%%%%%"][i % 3]
+    lines = [hist.cfg_line("tikv", eventsttl=1, ttl=TTL_MS),
+             "create %s %s" % (hx(e), hx(b"v1")), "rev", "compact 0", "sleep 1300",
+             "create %s %s" % (hx(h), hx(b"h1")), "rev", "compact 0", "dellog", "echo after",
+             "get %s 0" % hx(h), "get %s 0" % hx(e), "create %s %s" % (hx(e), hx(b"again")), "rev", "get %s 0" % hx(h),
+             "update %s %s %d" % (hx(h), hx(b"h2"), hist.INIT + 2), "rev"]
+    return core.Case("backend", lines, {"engine": "tikv", "sibling": True, "h": h})
+
+
+def hostile_sibling_oracle(case):
+    after = False
+    for i, (line, out) in enumerate(zip(case.lines, case.impl)):
+        t, o = line.split(), out.split()
+        if line == "echo after":
+            after = True
+            continue
+        if not after:
+            continue
+        if t[0] == "get" and hist.unhx(t[1]) == case.meta["h"] and len(o) >= 3 and o[2] == "-":
+            return ("line %d: the expiry of an Event removed ANOTHER, young Event whose name extends it by the separator byte: %s reads absent"
+                    % (i + 1, case.meta["h"]), "young-event-removed")
+        if t[0] == "update" and o[1] != "ok":
+            return ("line %d: the young sibling Event lost its revision record to the expiry of another Event: %s" % (i + 1, out), "young-event-removed")
+    return None
+
+
 def renewed_event_case(seed, i, variant):
     """The ttl pass rides on a compaction at R while an Event's newest change lies ABOVE R and its older version lies at
     or below the timeout revision: create e (v1) and a non-event key; compaction (takes the mark); sleep past the ttl;
@@ -646,6 +676,7 @@ def check(rep, tier, seed):
     cases += [engine_ttl_case(seed, i, ENGINE_TTL_ENGINES[i % 2], tier) for i in range(2 if tier == "quick" else 20)]
     cases += [renew_case(seed, i, ["update", "recreate"][i % 2]) for i in range(2 if tier == "quick" else 24)]
     cases += [badger_young_case(i) for i in range(2 if tier == "quick" else 12)]
+    cases += [hostile_sibling_case(i) for i in range(2 if tier == "quick" else 9)]
     # tikv: an Event renewed after the mark, compacted below its newest change; and the failed compare-and-delete of an
     # expired revision record (plain / other error / failed-condition error)
     cases += [renewed_event_case(seed, i, ["", "c", "f"][i % 3]) for i in range(3 if tier == "quick" else 42)]
